@@ -86,6 +86,18 @@ add("C14", "model-based testing: generated update histories on both design-space
     "Reference prediction through the N>=2 path of predict(); 1e-7 relative for GP batching round-off, 1e-12 otherwise; touching rectangles accept either outcome.",
     "DESIGN.md section 3 C14")
 
+add("C04", "Hypothesis generated configurations; real schedule + real region builder; exact Gaussian/chi-square tail sums with dyadic condensation bound",
+    "For 8 algorithm/confidence-type variants and generated (delta, K, m, noise / posterior covariance) the real compute_radius/alpha/beta at contraction 1 is "
+    "evaluated per round, pushed through design_space.update with a stub model of known mean/covariance, the displayed geometry is read back and the exact "
+    "per-round miss probability is summed over t <= 4096 plus a rigorous condensation bound to t = 2^60; K x sum must not exceed delta.",
+    "Horizon 2^60; monotone per-round terms checked on the grid; schedules read through unbound methods on a namespace carrying exactly the inputs the property lists.",
+    "DESIGN.md section 3 C04")
+add("C08", "Hypothesis generated instances: closed-form failure probability by quadrature, Monte-Carlo with exact binomial test, proxy-log recomputation of P",
+    "algorithm.L is read from real NaiveElimination instances on generated two-design problems with gap eps(1+eta) and the exact failure probability "
+    "1 - P[N(d, 2 sigma^2/L I) in C] (1-D quadrature, self-checked against Monte-Carlo) must be <= delta; real runs on 3-6 designs are counted against an exact "
+    "binomial tail; after every step P is compared with the brute-force Pareto set of per-design means of the logged observations.",
+    "2-D theta cones only (the bundled cones with beta); K >= 2; Monte-Carlo violation threshold 1e-9.", "DESIGN.md section 3 C08")
+
 PENDING = {}
 
 
